@@ -105,11 +105,13 @@ CHECKS = {
     },
     "C18": {
         "level": "exploration",
-        "assumptions": EXPLORATION_ASSUMPTIONS + ["SSL configurations are checked for the dialled address only (on a dial that then fails); no TLS session is established",
+        "assumptions": EXPLORATION_ASSUMPTIONS + ["in the scripted-socket leg SSL configurations are checked for the dialled address only (on a dial that then fails); the loopback leg (TestC18_TCP) establishes real TCP and TLS sessions without a proxy and is skipped, counted, when 127.0.0.1:6667/6697 cannot be bound",
                                                   "between connect cycles the harness waits for the finished connection's goroutines to exit (their late Close is C07's subject)"],
         "legs": [
             {"test": "TestC18", "quick": {"checks": 500, "timeout": "15m"},
              "thorough": {"checks": 5000, "shards": 4, "timeout": "60m"}},
+            {"test": "TestC18_TCP", "quick": {"checks": 60, "timeout": "15m"},
+             "thorough": {"checks": 600, "timeout": "60m"}},
         ],
     },
     "C20": {
